@@ -20,11 +20,27 @@ def _mix(rs, d, cond):
   return (Q * s).dot(Q2)
 
 
-def make_data(desc):
+def _make_view(desc, live_base=None):
+  """A dataset whose point store is a *slice* of another dataset's store
+  (`base.S[start:]`, sharing memory with it when the live base is given): the
+  train / validation split of one array, as a user would write it."""
+  base = live_base if live_base is not None else make_data(desc["view_of"])
+  start = int(desc["start"])
+  D = Data()
+  D.desc = desc
+  D.S = base.S[start:]
+  yS = base.yS0[start:]
+  D.N, D.n, D.d, D.classes = base.N - start, base.n - start, base.d, base.classes
+  return _finish(D, desc, yS.astype(int))
+
+
+def make_data(desc, live_base=None):
   """desc: kind in {blobs, grid, lowrank}, seed, n, d, classes, extra (extra
   store rows not used for training), unknown (fraction of -1 labels in
   y_partial), tuples (number of tuples), scale (log10 range of feature
   scales), sep (class separation)."""
+  if desc.get("view_of"):
+    return _make_view(desc, live_base)
   kind = desc.get("kind", "blobs")
   seed = desc["seed"]
   n, d, c = int(desc["n"]), int(desc["d"]), int(desc.get("classes", 2))
@@ -63,8 +79,14 @@ def make_data(desc):
   D = Data()
   D.desc = desc
   D.S = np.ascontiguousarray(S, dtype=float)
-  D.yS = yS.astype(int)
   D.N, D.n, D.d, D.classes = N, n, d, c
+  return _finish(D, desc, yS.astype(int))
+
+
+def _finish(D, desc, yS):
+  seed = desc["seed"]
+  n, d, c = D.n, D.d, D.classes
+  D.yS = yS
   D.pidx = np.arange(n)
   if desc.get("perm"):
     D.pidx = np_stream(seed, "perm").permutation(n)
